@@ -2,8 +2,8 @@
    Statements only; proofs in B/SysModeProofs.v.  Model: B/SysMode.v (the shared system model
    `Sys` plus the InMemory flag: rejection of values above the limit, value placement, the
    persistence events of every label). *)
-From Verif Require Import Bytes Keys Consts Spec Lsm Compact Iter Sys SysMode.
-From Verif Require SysModeProofs.
+From Verif Require Import Bytes Keys Consts Spec Lsm Compact Iter Sys SysMode MemRoom.
+From Verif Require SysModeProofs MemRoomProofs GcProofs GetProofs.
 Import SysModeProofs.
 Open Scope N_scope.
 
@@ -65,3 +65,133 @@ Proof. exact inmem_no_events. Qed.
 Print Assumptions C37_no_events.
 Example C37_no_events_ex : m_ev (init_msys (cI 1024) false true 1 4 1) = [].
 Proof. reflexivity. Qed.
+
+(* ===== histories larger than one memtable (model: B/MemRoom.v, proofs: B/MemRoomProofs.v) =====
+   memTable.isFull / DB.ensureRoomForWrite / arenaSize, with the byte counters the code looks
+   at: r_sl = Skiplist.MemSize() of the active memtable, r_wal = its WAL's writeAt.  `vstep` is
+   the function the correspondence evaluates on every commit of a real volume history
+   (corr/CorrC37.v, constructor Vol); `vrun` is its iteration. *)
+Import MemRoomProofs.
+
+(* memTable.isFull as coded: in memory, full iff the skiplist holds MemTableSize bytes; on
+   disk, that or the WAL has reached MemTableSize *)
+Theorem C37_isfull_inmem : forall thr mts sl wal,
+  is_full (mkRC (mkMC true thr) mts) sl wal = (mts <=? sl).
+Proof. exact is_full_inmem. Qed.
+Print Assumptions C37_isfull_inmem.
+Theorem C37_isfull_disk : forall thr mts sl wal,
+  is_full (mkRC (mkMC false thr) mts) sl wal = (mts <=? sl) || (mts <=? wal).
+Proof. exact is_full_disk. Qed.
+Print Assumptions C37_isfull_disk.
+
+(* (i) the arena bound, with the constants of db.go arenaSize: a request that passed
+   sendToWriteCh (fewer than maxBatchCount entries, estimated size below maxBatchSize), written
+   after ensureRoomForWrite (MemSize() < MemTableSize: found so, or a fresh memtable) with
+   tower heights <= 15, leaves MemSize() <= MemTableSize + maxBatchSize + maxBatchCount *
+   MaxNodeSize — in both modes (c is any configuration) *)
+Theorem C37_arena_bound : forall c r1 es hs fin cts,
+  r_sl r1 < rc_mts c -> batch_ok c es fin cts = true -> heights_ok hs ->
+  sl_after c r1 es hs <= rc_mts c + max_batch_size (rc_mts c) + max_batch_count (rc_mts c) * c_maxNodeSize.
+Proof. exact arena_bound. Qed.
+Print Assumptions C37_arena_bound.
+
+(* hence no history, in either mode, ends in "Arena too small" (VDied 1) *)
+Theorem C37_arena_never_exhausted : forall c ops r,
+  sl_empty < rc_mts c -> Forall vop_heights_ok ops -> vrun c r ops <> VDied 1.
+Proof. exact vrun_no_arena_death. Qed.
+Print Assumptions C37_arena_never_exhausted.
+
+(* vrun is the replay the correspondence evaluates (vexec) *)
+Theorem C37_vexec_is_vrun : forall c ops r i r',
+  vexec c r ops i = (None, r') <-> vrun c r ops = VOk r'.
+Proof. exact vexec_vrun. Qed.
+Print Assumptions C37_vexec_is_vrun.
+
+(* the guard on the tower heights cannot be dropped: a request of 23 entries that passes
+   sendToWriteCh exhausts the arena of a 16 KiB memtable when every tower has the maximal
+   height 20 (randomHeight: probability 3^-19 per node) *)
+Theorem C37_arena_bound_needs_heights :
+  let c := mkRC (mkMC true 1024) 16384 in
+  let es := map (fun i => mkE [i] 1 0 0 9223372036854775808 (repeat 7 94))
+                [1; 2; 3; 4; 5; 6; 7; 8; 9; 10; 11; 12; 13; 14; 15; 16; 17; 18; 19; 20; 21; 22; 23] in
+  let r1 := mkR (init_msys (rc_m c) false true 1 4 1) 16383 0 0 0 in
+  batch_ok c es true 1 = true /\ r_sl r1 < rc_mts c /\
+  arena_size (rc_mts c) < sl_after c r1 es (repeat 20 23).
+Proof. exact arena_bound_needs_heights. Qed.
+Print Assumptions C37_arena_bound_needs_heights.
+
+(* (ii) a write request that finds MemTableSize bytes in the skiplist rotates the memtable —
+   for every configuration c, InMemory included *)
+Theorem C37_full_memtable_rotates : forall c r t cts res rot hs sl wal r',
+  vstep c r (VCommit t cts res rot hs sl wal) = VOk r' ->
+  commit_applies (m_sys (r_m r)) t cts <> [] ->
+  rc_mts c <= r_sl r ->
+  exists id, rot = Some id /\ r_rot r' = r_rot r + 1.
+Proof. exact full_memtable_rotates. Qed.
+Print Assumptions C37_full_memtable_rotates.
+
+(* every accepted history from Open on: once the active memtable has taken MemTableSize bytes
+   of values (r_since; the 107 bytes of the empty skiplist count), the next write request
+   rotates it.  In particular every write sequence larger than MemTableSize rotates. *)
+Theorem C37_volume_rotates : forall c managed detect nkeep nlevels next ops r t cts res rot hs sl wal r',
+  vrun c (init_room c managed detect nkeep nlevels next) ops = VOk r ->
+  rc_mts c <= sl_empty + r_since r ->
+  commit_applies (m_sys (r_m r)) t cts <> [] ->
+  vstep c r (VCommit t cts res rot hs sl wal) = VOk r' ->
+  exists id, rot = Some id /\ r_rot r' = r_rot r + 1.
+Proof. exact volume_rotates. Qed.
+Print Assumptions C37_volume_rotates.
+
+(* and a memtable that is not full is not rotated by a write *)
+Theorem C37_not_full_not_rotated : forall c r t cts res rot hs sl wal r',
+  vstep c r (VCommit t cts res rot hs sl wal) = VOk r' ->
+  is_full c (r_sl r) (r_wal r) = false -> rot = None /\ r_rot r' = r_rot r.
+Proof. exact not_full_not_rotated. Qed.
+Print Assumptions C37_not_full_not_rotated.
+
+(* the hypotheses are satisfiable: an InMemory history of nine commits of 200 bytes each into a
+   2000-byte memtable is accepted, the ninth commit finds MemSize() = 2019 and rotates *)
+Definition C37_vol_ex_ops : list vop :=
+  flat_map (fun i => [VX (Base (Begin i true i)); VX (Base (Modify i (mkE [1] 0 0 0 0 (repeat 7 200)) 0));
+                      VCommit i (i + 1) 0 (if i =? 8 then Some 5 else None) [1]
+                              (if i =? 8 then 346 else 107 + 239 * (i + 1)) 0])
+           [0; 1; 2; 3; 4; 5; 6; 7; 8].
+Example C37_volume_ex :
+  let c := mkRC (mkMC true 1024) 2000 in
+  (match vrun c (init_room c false true 1 4 1) C37_vol_ex_ops with
+   | VOk r => (r_rot r =? 1) && (r_sl r =? 346) && (match m_ev (r_m r) with [] => true | _ => false end)
+              && (length (nth 0 (l_levels (s_db (m_sys (r_m r)))) []) =? 1)%nat
+   | _ => false
+   end) = true /\ sl_empty < rc_mts c /\ Forall vop_heights_ok C37_vol_ex_ops.
+Proof.
+  split; [vm_compute; reflexivity|]. split; [reflexivity|].
+  unfold C37_vol_ex_ops. cbn [flat_map app]. repeat constructor; cbn; lia.
+Qed.
+
+(* (iii) reads do not depend on where the rotations happen.  A VCommit label acts on the tree
+   as room_db: the rotation (if any), then the Puts of the request ... *)
+Theorem C37_vcommit_tree : forall c r t cts res rot hs sl wal r',
+  vstep c r (VCommit t cts res rot hs sl wal) = VOk r' ->
+  s_db (m_sys (r_m r')) = room_db (s_db (m_sys (r_m r))) (rot, commit_applies (m_sys (r_m r)) t cts).
+Proof. exact vcommit_db. Qed.
+Print Assumptions C37_vcommit_tree.
+
+(* ... and two sequences of the same requests with rotations at different places (the on-disk
+   run rotates on the WAL size as well, the in-memory run only on the skiplist size) leave trees
+   on which every Get returns the same entry and whose merged view — what every iterator is
+   computed from (Sys.txn_iterate) — is the same list *)
+Theorem C37_reads_indep_of_rotations : forall d bs bs',
+  GetProofs.lsm_wf d -> srcs_sorted d -> map snd bs = map snd bs' ->
+  (forall k ts, db_get (write_all d bs) k ts = db_get (write_all d bs') k ts) /\
+  merged (write_all d bs) = merged (write_all d bs').
+Proof. exact reads_indep_of_rotations. Qed.
+Print Assumptions C37_reads_indep_of_rotations.
+Example C37_reads_indep_ex : forall n, GetProofs.lsm_wf (mkLsm [] [] (repeat [] n)) /\ srcs_sorted (mkLsm [] [] (repeat [] n)).
+Proof. exact empty_db_ok. Qed.
+
+(* the value of every Get after the requests: the fold of the MVCC "newest wins" rule over the
+   written entries, whatever the rotations *)
+Theorem C37_volume_get : forall bs d k ts, GetProofs.lsm_wf d ->
+  db_get (write_all d bs) k ts = fold_left (GcProofs.win1 k ts) (concat (map snd bs)) (db_get d k ts).
+Proof. exact write_all_get. Qed.
+Print Assumptions C37_volume_get.
